@@ -49,6 +49,14 @@ def gen_cases(tier, seed):
             d["faults"] = {"p": r.choice([0.15, 0.3, 0.6]), "kinds": r.choice([["exc"], ["exc", "value"], ["exc", "base"]])}
             d["max_errors"] = r.choice([0, 0, 1, 3, None])
         out.append(d)
+    for i in range(n // 2):
+        # the calls in flight when the interrupt arrives FAIL afterwards, within the error budget, with other calls still queued and the
+        # random scheduler (sentinels are not prioritised there): the failure handling must not undo the stop
+        s = env.seed_for(seed, ID, tier, "fail_inflight", i)
+        r = random.Random(env.seed_for(s, "descriptor"))
+        out.append({"seed": s, "mode": "plain", "n": r.randint(4, 14), "W": r.choice([1, 1, 2, 3]), "sched": r.choice(["random", "random", "default"]),
+                    "observer": r.choice(["none", "rec"]), "tier": tier, "faults": {"p": r.choice([0.5, 0.8, 1.0]), "kinds": r.choice([["exc"], ["exc", "value"]])},
+                    "max_errors": r.choice([None, None, 50])})
     return out
 
 
@@ -128,12 +136,22 @@ class Interrupter:
         self.deadlock = None
         self.drv = quiesce.WaveDriver(random.Random(seed), on_quiescent=self.on_quiescent, on_deadlock=self.on_deadlock)
         self.drv.open = True  # gate open: calls pass freely until call k
+        self.drv.on_tick = self.tick
+        self.steady_since = None
         self.run_raised = False
         self.want_steady = False
         self.resent = 0
         self.stuck_rounds = 0
         self.gave_up = False
         self.raise_site = None
+
+    def tick(self):
+        # 'steady' position: the signal is sent at the first quiescent state with the caller inside queue.join. An engine whose caller
+        # polls (timed waits) never becomes quiescent in that sense - then the signal is sent after a bounded wait instead; the
+        # position only shapes the schedule, no verdict depends on it.
+        if self.want_steady and self.sent_seq is None and self.steady_since is not None and time.monotonic() - self.steady_since > 1.5:
+            self.steady_fallbacks = getattr(self, "steady_fallbacks", 0) + 1
+            self.send()
 
     def send(self):
         self.drv.open = False
@@ -152,6 +170,7 @@ class Interrupter:
             self.drv.open = False
             self.drv.hold = True
             self.want_steady = True
+            self.steady_since = time.monotonic()
         self.drv.gate(nid)
 
     def post(self, nid, att, res):
